@@ -17,8 +17,12 @@ import (
 // both runs the reference model and the real interpreter on a case.
 // failIdx: index of the statement at which the real execution fails, known from prefix runs
 // (-1: unknown)
+// failReal: the outcome of the shortest prefix of the script that fails (the whole execution
+// when unknown): its error is the one of the first failing statement, whichever error the
+// whole execution chooses to report when several statements are wrong
 type both struct {
-	failIdx int
+	failIdx  int
+	failReal hx.Real
 	ec      *gen.ExecCase
 	real    hx.Real
 	m       model.Result
@@ -29,6 +33,7 @@ type both struct {
 func runBoth(ec *gen.ExecCase) *both {
 	b := &both{ec: ec, failIdx: -1}
 	b.real, _ = hx.Run(ec, doubles.Superset)
+	b.failReal = b.real
 	if b.real.OK() {
 		b.groups, b.grouped = hx.Group(ec, b.real, doubles.Superset)
 	}
@@ -36,9 +41,10 @@ func runBoth(ec *gen.ExecCase) *both {
 	steer := b.groups
 	if !b.real.OK() && b.real.Panic == "" && b.real.ParseErrors == 0 && len(ec.Script.Stmts) > 1 {
 		// a failed execution: the statements before the failing one are known from prefix runs
-		if g, ok := hx.GroupPrefix(ec, doubles.Superset); ok {
+		if g, fr, ok := hx.GroupPrefix(ec, b.real, doubles.Superset); ok {
 			steer = g
 			b.failIdx = len(g)
+			b.failReal = fr
 		}
 	}
 	if b.grouped || len(steer) > 0 {
@@ -223,8 +229,8 @@ func checkC03(c any) *ev.Verdict {
 		if b.real.OK() {
 			return v.Failf("spurious-success", "the sources cannot supply statement %d (%s) but execution succeeded: %s", b.m.Err.Stmt, b.m.Err.Msg, b.real.Summary())
 		}
-		if b.real.ErrClass != model.EMissingFunds {
-			return v.Failf("wrong-class", "funds are missing at statement %d but the error is %s", b.m.Err.Stmt, b.real.Summary())
+		if b.failReal.ErrClass != model.EMissingFunds {
+			return v.Failf("wrong-class", "funds are missing at statement %d but the error is %s", b.m.Err.Stmt, b.failReal.Summary())
 		}
 		// which statement fails (known from prefix runs; the reference continued from the
 		// balances the real execution had reached)
@@ -331,8 +337,8 @@ func checkC04(c any) *ev.Verdict {
 		if b.real.OK() {
 			return v.Failf("shape-accepted", "statement %d takes all from an unbounded/allotment source without an enclosing max, but execution succeeded: %s", b.m.Err.Stmt, b.real.Summary())
 		}
-		if !isShape(b.real.ErrClass) {
-			return v.Failf("shape-class", "expected a send-all shape rejection at statement %d, got %s", b.m.Err.Stmt, b.real.Summary())
+		if !isShape(b.failReal.ErrClass) {
+			return v.Failf("shape-class", "expected a send-all shape rejection at statement %d, got %s", b.m.Err.Stmt, b.failReal.Summary())
 		}
 		return v
 	}
@@ -612,8 +618,8 @@ func checkC08(c any) *ev.Verdict {
 			}
 			return v.Failf("saved-funds-spent", "with the reservations made by save, statement %d cannot be funded (%s), yet execution succeeded: %s", b.m.Err.Stmt, b.m.Err.Msg, b.real.Summary())
 		}
-		if b.real.ErrClass != b.m.Err.Class {
-			return v.Failf("class", "expected %s at statement %d, got %s", b.m.Err.Class, b.m.Err.Stmt, b.real.Summary())
+		if b.failReal.ErrClass != b.m.Err.Class {
+			return v.Failf("class", "expected %s at statement %d, got %s", b.m.Err.Class, b.m.Err.Stmt, b.failReal.Summary())
 		}
 		return v
 	}
